@@ -53,6 +53,19 @@ def truncOk {μ : Type} [BEq μ] (lens : List Nat) (orig : List μ) (c : Nat)
   if k == 0 && 0 < c then yielded.isEmpty && endErr == some Err.fetchSizeTooSmall
   else yielded == orig.take k && endErr == none
 
+/-! ## Enlarging rather than skipping -/
+
+/-- What C12 demands of the consumer after a fetch whose message set was cut short, when the first
+    `k` messages (offsets `offs`) were complete: the next fetch starts right after the last complete
+    message — at the unchanged offset when none was (`k = 0`) — so the cut message is fetched again,
+    never skipped; and when none was complete the buffer is enlarged as `grow` says (`newB = none`:
+    the consumer gave up because it was at its maximum). -/
+def refetchOk (offs : List Int) (k : Nat) (before after : Int) (b : Nat) (max : Option Nat)
+    (c : Nat) (newB : Option Nat) : Bool :=
+  match (offs.take k).getLast? with
+  | some o => after == o + 1 && newB == some b
+  | none => after == before && (if c == 0 then newB == some b else newB == grow b max)
+
 /-! ## Cost -/
 
 /-- Bound proved for every response decoder on every byte string (`C12_linear_*`):
